@@ -157,7 +157,7 @@ def run(tier, seed):
 
     SIGNAME = {signal.SIGINT: "int", signal.SIGTERM: "term", signal.SIGHUP: "hup"}
 
-    def add(name, text, bound_s, cleanups, sig=None, args=None, points=None, expect_fail=None, allow_left=False, body_err=None, env=None):
+    def add(name, text, bound_s, cleanups, sig=None, args=None, points=None, expect_fail=None, allow_left=False, body_err=None, env=None, tty_cols=None):
         """cleanups: 2 = every cleanup succeeds both times, 1 = the initial cleanups fail, None = not judged.
         body_err: does the play proper end with an error other than a cancellation (None = depends on the schedule).
         The expected number of cleanup runs and the expected result come from the life-cycle model (Model/Life.lean,
@@ -178,7 +178,7 @@ def run(tier, seed):
                     if expect_fail is not None and expect_fail != mf:
                         kdis.append({"life-model": ans, "scenario": name, "expected by the scenario": expect_fail})
                     want_fail = mf
-        faults.append({"name": name, "play": e2e.Play(text, args=args, timeout=bound_s + 12, sigspec=sig, points=points, keep=True, env=env),
+        faults.append({"name": name, "play": e2e.Play(text, args=args, timeout=bound_s + 12, sigspec=sig, points=points, keep=True, env=env, tty_cols=tty_cols),
                        "bound": bound_s, "cleanups": want_cl, "expect_fail": want_fail, "allow_left": allow_left})
 
     add("SIGINT during a long action", e2e_play(), 8, 2, sig=(1.0, signal.SIGINT), expect_fail=True)
@@ -222,6 +222,13 @@ def run(tier, seed):
     # the signal lands after the prompter's last look at the stop request and before the lines of the scene are handed
     # to the stopper, which refuses them: the scene must end with that refusal, not wait for tasks that never started
     add("SIGTERM between the prompter's stop check and the start of a scene's lines", e2e_play(scene_x="quick"), 10, 2, sig=(0.5, signal.SIGTERM), points="prompt.scene=sleep:1s")
+    # whatever goes wrong includes the terminal the narration is written to: narrow ones (the witness / judge lines
+    # are cut to a third of the width)
+    for cols in (1, 4, 8, 30):
+        add("an audit foul narrated on a terminal %d columns wide" % cols,
+            e2e_play(scene_x="quick", spot="echo 'val 9'; sleep 30", audience="audience\n  bob watches a v\n  bob audits throughout\n  bob expects always: t < 0\nend\n").replace(
+                "  spotlight ", "  signal v scalar at (?P<ts_now>)val (?P<scalar>\\d+$)\n  spotlight "),
+            10, 2, expect_fail=True, body_err=True, tty_cols=cols)
     add("a completed action left a process in the background", e2e_play(scene_x="bg", extra_actions="  :bg (setsid sleep 7 >/dev/null 2>&1 &) ; true"), 8, 2, expect_fail=False, allow_left=True, body_err=False)
     add("SIGINT while the conductor is between shutdown stages", e2e_play(scene_x="quick"), 8, 2, sig=(0.45, signal.SIGINT), points="conduct.stage2=sleep:600ms")
     add("SIGTERM while the collector is still draining", e2e_play(scene_x="quick"), 8, 2, sig=(0.5, signal.SIGTERM), points="collector.loop=sleep:150ms")
